@@ -264,6 +264,30 @@ func TestVerif_C39_Ids(t *testing.T) {
 			tr.Count("id_neighbour", 1)
 		})
 	}
+	// (a') exhaustive single-byte substitution: every byte value 0..255 at the first, second, middle and last
+	// position of a valid input, for every parser (catches parsers that alias bytes onto hex digits)
+	subst := func(s string, lo int, f func(string)) {
+		pos := []int{lo, lo + 1, (lo + len(s)) / 2, len(s) - 2, len(s) - 1}
+		for _, i := range pos {
+			for b := 0; b < 256; b++ {
+				f(s[:i] + string([]byte{byte(b)}) + s[i+1:])
+			}
+		}
+	}
+	for k := 0; k < verifh.Scale(1, 3); k++ {
+		hx := c39MixedHex(r, 32)
+		subst("sha256:"+hx, 7, func(s string) { run("digest", verifh.Str(s)); tr.Count("digest_byte_subst", 1) })
+		subst("sha256:"+hx, 0, func(s string) { run("digest", verifh.Str(s)); tr.Count("digest_byte_subst", 1) })
+		subst(hx, 0, func(s string) { run("digesthex", verifh.Str(s)); tr.Count("digesthex_byte_subst", 1) })
+		id := c39MixedHex(r, 20)
+		subst(id, 0, func(s string) {
+			run("infohash", verifh.Str(s))
+			run("peerid", verifh.Str(s))
+			tr.Count("id_byte_subst", 2)
+		})
+		js := `["sha256:` + hx + `","sha256:` + c39MixedHex(r, 32) + `"]`
+		subst(js, 9, func(s string) { run("dlist", verifh.Hex([]byte(s))); tr.Count("dlist_byte_subst", 1) })
+	}
 	// (b) random valid values and random malformed strings
 	for i := 0; i < verifh.Scale(600, 60000); i++ {
 		hx := c39MixedHex(r, 32)
